@@ -19,7 +19,7 @@ ASSUMPTIONS = ["values annotated on non-note tokens (NaN or imputed) are not dem
                "monotonicity is demanded only for streams produced by tokenise"]
 REQUIRED_FLAGS = ["bar_in_partly_filled_bar", "signature_mid_bar_ignored", "signature_at_bar_start", "bare_running_value_token",
                   "rest_beyond_capacity", "note_after_rest", "imputation_on", "imputation_off", "graph_edge_replayed",
-                  "tokenise_stream_checked", "pad_start_stop", "graph_probe", "odd_resolution", "long_stream", "every_signature_at_odd_resolution"] + ["pitch_class_%d" % i for i in range(12)]
+                  "tokenise_stream_checked", "pad_start_stop", "graph_probe", "odd_resolution", "long_stream", "every_signature_at_odd_resolution", "three_digit_step_sizes"] + ["pitch_class_%d" % i for i in range(12)]
 
 FL = list(itertools.product((True, False), repeat=4))   # running, fuse_track, fuse_value, fuse_velocity
 _TOKS = {}
@@ -28,7 +28,9 @@ _TOKS = {}
 def tok(fl, nt=2, small=True, ppqn=24, tsr=(3, 4)):
     k = (tuple(fl), nt, small, ppqn, tsr)
     if k not in _TOKS:
-        kw = dict(pitch_range=(60, 61), note_values=[12, 24], step_sizes=[12, 24], time_signature_range=tsr) if small else \
+        kw = dict(pitch_range=(60, 61), note_values=[100, 480], step_sizes=[25, 100, 250, 480], time_signature_range=tsr) \
+            if small == "big" else \
+            dict(pitch_range=(60, 61), note_values=[12, 24], step_sizes=[12, 24], time_signature_range=tsr) if small else \
             dict(pitch_range=(0, 127))       # the full MIDI range, both limits included
         if ppqn != 24:
             kw["ppqn"] = ppqn
@@ -62,6 +64,10 @@ def units(ctx):
     for ppqn in (15, 9, 21, 25, 24):
         for fi in (0, 15):
             yield ("allsigs", fi, ppqn)
+    # step sizes and note values of three digits (resolutions 480 and 250): every ordered pair of rest tokens
+    for ppqn in (480, 250):
+        for fi in (0, 15):
+            yield ("bigsteps", fi, ppqn)
     # an odd resolution (15 ticks per quarter): bar capacities that are not multiples of the signature numerator
     for fi in (0, 15):
         t = tok(FL[fi], nt=1, ppqn=15)
@@ -389,6 +395,22 @@ def run_unit(unit, acc, ctx):
                     if v or info is None or notes is None:
                         break
                 acc.flags["every_signature_at_odd_resolution"] += 1
+    elif kind == "bigsteps":
+        _, fi, ppqn = unit
+        t = tok(FL[fi], nt=1, small="big", ppqn=ppqn, tsr=(2, 16))
+        desc = {"fl": list(FL[fi]), "nt": 1, "small": "big", "ppqn": ppqn, "tsr": [2, 16]}
+        rests = [x for x in t.dictionary if x.startswith("rst_")]
+        note = next(x for x in t.dictionary if "pit_" in x)
+        for r1 in rests:
+            for r2 in rests:
+                for stream in ([r1, r2, note], [note, r1, "bar", r2, note, "bar", note], ["tsg_03_08", r1, note, r2, "bar", r1, note]):
+                    clock, info, notes = Clock(ppqn=t.ppqn), None, collections.Counter()
+                    for i in range(len(stream)):
+                        v, clock, info, notes, facts = check_node(t, stream[: i + 1], False, clock, info if i else None, notes)
+                        record(acc, desc, False, stream[: i + 1], v, facts)
+                        if v or info is None or notes is None:
+                            break
+                    acc.flags["three_digit_step_sizes"] += 1
     elif kind == "longstream":
         # scale: a stream of several hundred tokens (cycling through the vocabulary with a stride), every token checked
         t = tok(FL[unit[1]])
